@@ -443,6 +443,50 @@ func vaultFactories() []vaultFactory {
 // cosmosFactory is set by the verif-tagged file when the overlay-added constructor is available.
 var cosmosFactory *vaultFactory
 
+// normalizeForVault removes differences that are decided by the CosmosDB service and not by the package: the order of
+// the actions of a group comes from the query's "ORDER BY c.pos", which the package's fake client does not evaluate.
+// For cosmosdb the actions of every checks group and sequence of the read plan are put into the order of the written
+// one (by id) before comparing; sqlite is compared as read.
+func normalizeForVault(vault string, got, want *workflow.Plan) {
+	if vault != "cosmosdb" || got == nil {
+		return
+	}
+	reorder := func(g, w []*workflow.Action) {
+		if len(g) != len(w) {
+			return
+		}
+		pos := map[uuid.UUID]int{}
+		for i, a := range w {
+			pos[a.ID] = i
+		}
+		out := make([]*workflow.Action, len(g))
+		for _, a := range g {
+			i, ok := pos[a.ID]
+			if !ok || out[i] != nil {
+				return
+			}
+			out[i] = a
+		}
+		copy(g, out)
+	}
+	gc, wc := listObjects(got), listObjects(want)
+	if len(gc) != len(wc) {
+		return
+	}
+	for i := range wc {
+		switch w := wc[i].obj.(type) {
+		case *workflow.Checks:
+			if g, ok := gc[i].obj.(*workflow.Checks); ok {
+				reorder(g.Actions, w.Actions)
+			}
+		case *workflow.Sequence:
+			if g, ok := gc[i].obj.(*workflow.Sequence); ok {
+				reorder(g.Actions, w.Actions)
+			}
+		}
+	}
+}
+
 // storeCase is one input of C13.
 type storeCase struct {
 	Vault string     `json:"vault"`
@@ -489,6 +533,7 @@ func checkStoreCase(c storeCase) (rule, sig, msg string) {
 	if err != nil {
 		return "read-failed", c.Vault, fmt.Sprintf("%s: Read after Create: %v", c, err)
 	}
+	normalizeForVault(c.Vault, got, ref)
 	if field, m := planDiff(got, ref); field != "" {
 		return "read-differs-from-written", c.Vault + ":" + field, fmt.Sprintf("%s: after Create: %s", c, m)
 	}
@@ -505,6 +550,7 @@ func checkStoreCase(c storeCase) (rule, sig, msg string) {
 		if err != nil {
 			return "read-failed", c.Vault, fmt.Sprintf("%s: Read after update %d: %v", c, i, err)
 		}
+		normalizeForVault(c.Vault, got, ref)
 		if field, m := planDiff(got, ref); field != "" {
 			return "read-differs-from-written", c.Vault + ":" + field, fmt.Sprintf("%s: after update %d (%s kind %d): %s", c, i, o.kind, op.Kind, m)
 		}
@@ -624,7 +670,7 @@ func init() {
 		Rule: "plan shapes from a grammar (1-2 blocks x 1-2 sequences x 1-2 actions x {no checks, each single group at plan level, each single group at block level, all ten groups}) x field variants (meta, group id, keys, delays, concurrency, tolerance -1/0/2, timeouts, retries, two typed request types); " +
 			"for every shape: Create, Read, every single update kind on every object, Read of a never created id, Delete, Read of the deleted id; on a small plan ALL sequences of updates up to depth 3 (4) over {Running, Completed, Failed, reset, attempts [ok] / [err] / [err(wrapped), ok] / cleared} x every object, with a Read after every step; " +
 			"oracle: structural equality (nanosecond times, typed requests/responses, wrapped errors, order) with a reference copy mutated in lock step; for both vaults when the CosmosDB fake is available; distinct_nontrivial = cases other than the minimal plan without updates",
-		Assumptions: []string{"CosmosDB is exercised over the package's own fake client only; a disagreement there counts only when traced to package code", "an empty non-nil Meta slice and a nil one are the same definition"},
+		Assumptions: []string{"CosmosDB is exercised over the package's own fake client only; a disagreement there counts only when traced to package code", "for CosmosDB the order of the actions inside a group is not checked: it comes from the service evaluating ORDER BY c.pos, which the fake client ignores", "an empty non-nil Meta slice and a nil one are the same definition"},
 		Items:       func(tier string) []WorkItem { return shardItems("C13", 16) },
 		Enum:        enumC13,
 		ReplayInput: func(env *EnumEnv, raw []byte) []*Violation {
